@@ -18,6 +18,7 @@ RULE = ("the scripts run as real subprocesses on generated text and NetCDF input
 RULE += " " + 'expandverif also runs on quarter-hourly lead times with requested times that are near but not on an observation time.'
 RULE += " " + 'ens2prob on one-decimal text values with observation-member ties.'
 RULE += " " + 'Rounds 9-10: station identifiers beyond 2**24.'
+RULE += " " + "Rounds 13-14: accumulate on a year of daily runs and on a 400-step lead-time series with windows of 7 and 30; ens2prob columns are matched to the output file's own threshold / quantile coordinates, which must hold exactly the requested values."
 ASSUMPTIONS = ["initialisation times before 2038 (the scripts store time as int32)",
                "observations in a file agree for equal valid times (expandverif takes the first match)"]
 REQUIRED_COUNTERS = ["accumulate_runs", "accumulate_cells", "ens2prob_runs", "ens2prob_cells", "expandverif_runs", "expandverif_cells",
